@@ -415,6 +415,7 @@ type Contracts struct {
 	Lemmas  []*Axiom
 	Files   []string
 	GhostFields map[string]*GhostField
+	TypeInvs    map[string]string // type name -> ghost predicate
 }
 
 // GhostField: ghost heap field "ghostfield name Sort [of TypeName]" -- state attached to an object (reference).
@@ -432,7 +433,7 @@ var clauseKeywords = map[string]bool{
 	"func": true, "loop": true, "requires": true, "ensures": true, "invariant": true, "modifies": true,
 	"property": true, "bind": true, "nopanic": true, "assumed": true, "ghost": true, "pure": true,
 	"axiom": true, "lemma": true, "let": true, "decreases": true, "mode": true, "unproved": true,
-	"package": true, "theory": true, "cases": true, "uses": true, "opt": true, "free": true, "end": true, "ghostfield": true, "purefn": true, "assert": true,
+	"package": true, "theory": true, "cases": true, "uses": true, "opt": true, "free": true, "end": true, "ghostfield": true, "purefn": true, "assert": true, "typeinv": true,
 }
 
 type rawClause struct {
@@ -658,6 +659,16 @@ func (cs *Contracts) parseFile(path string, pkgPath string) error {
 			if len(kv) == 2 && cur != nil {
 				cur.Lets = append(cur.Lets, [2]string{strings.TrimSpace(kv[0]), strings.TrimSpace(kv[1])})
 			}
+		case "typeinv":
+			// typeinv pkg.Type: ghostPredicateName
+			kv := strings.SplitN(r.text, ":", 2)
+			if len(kv) != 2 {
+				return fmt.Errorf("%s:%d: typeinv needs 'Type: predicate'", path, r.line)
+			}
+			if cs.TypeInvs == nil {
+				cs.TypeInvs = map[string]string{}
+			}
+			cs.TypeInvs[strings.TrimSpace(kv[0])] = strings.TrimSpace(kv[1])
 		case "ghostfield":
 			f := strings.Fields(r.text)
 			if len(f) < 2 {
